@@ -206,6 +206,33 @@ SClipAfterT(c, S, k) == IF k = 0 \/ S = {} THEN {S}
                         ELSE UNION {IF T = S THEN {S} ELSE SClipAfterT(c, T, k - 1) : T \in SClipSuccT(c, S)}
 SClipFinalsT(c) == SClipAfterT(c, DOMAIN c.x, c.niter)
 
+\* ---- sigma clipping on a TICK lattice: scatter of a few ulp of the offset (round 4) -----------------------
+\* Data (x + OFF) * unit with the lattice unit EQUAL to the spacing of the floating-point numbers at OFF (time stamps that
+\* agree to the clock tick, float32 data with near-identical values, integers near 2^53).  A tolerance "mean and deviation
+\* known to tol" decides nothing there (every point is within tol of the boundary), but on such a lattice the computed mean
+\* is itself a lattice point j (every floating-point number near OFF is one), |j - m| <= tol, the differences x_i - j are
+\* exact, and the deviation taken about the computed mean is  sqrt(Q(j) / W),  Q(j) = sum w (x - j)^2  (up to a RELATIVE
+\* rounding: only exact ties are free).  So one round from S yields, for some admissible j,
+\*      {i : |x_i - j| < nsig sqrt(Q(j)/W)}   <=>   (x_i - j)^2 nsd^2 W < nsn^2 Q(j)
+\* - or what the exact relation above yields (an implementation that carries more precision).  In particular (the least
+\* squared distance is at most the mean squared distance, about ANY centre j) for nsig > 1 some point always survives a round.
+\* A case is judged this way iff it carries the field `grid`.
+SGrid(c)           == "grid" \in DOMAIN c
+SGridMeans(c, S)   == LET W == SSumW(c.w, S)  A == SSumWX(c.x, c.w, S)  lo == VSetMin({c.x[i] : i \in S})  hi == VSetMax({c.x[i] : i \in S})
+                      IN {j \in (lo - (c.tol[1] \div c.tol[2]) - 1)..(hi + (c.tol[1] \div c.tol[2]) + 1) : VAbs(j * W - A) * c.tol[2] <= c.tol[1] * W}
+SGridQ(c, S, j)    == VSumF(LAMBDA i : c.w[i] * (c.x[i] - j) * (c.x[i] - j), S)
+SGridLhs(c, S, j, i) == (c.x[i] - j) * (c.x[i] - j) * c.nsd * c.nsd * SSumW(c.w, S)
+SGridKeep(c, S, j) == LET R == c.nsn * c.nsn * SGridQ(c, S, j) IN {i \in S : SGridLhs(c, S, j, i) < R}
+SGridTies(c, S, j) == LET R == c.nsn * c.nsn * SGridQ(c, S, j) IN {i \in S : SGridLhs(c, S, j, i) = R}
+SClipInSuccG(c, S, U) == S # {} /\ \E j \in SGridMeans(c, S) :
+                            \/ U # {} /\ SGridKeep(c, S, j) \subseteq U /\ U \subseteq (SGridKeep(c, S, j) \cup SGridTies(c, S, j))
+                            \/ (U = S \/ U = {}) /\ SGridKeep(c, S, j) = {}
+SClipStopsG(c, S)     == S = {} \/ \E j \in SGridMeans(c, S) :
+                            SGridKeep(c, S, j) = {} \/ SGridKeep(c, S, j) \cup SGridTies(c, S, j) = S
+\* the relations the acceptance of a recorded iteration uses: tick lattice - grid or exact; else tolerance-aware
+SClipInSuccX(c, S, U) == IF SGrid(c) THEN SClipInSucc(c, S, U) \/ SClipInSuccG(c, S, U) ELSE SClipInSuccT(c, S, U)
+SClipStopsX(c, S)     == IF SGrid(c) THEN SClipStopsP(c, S) \/ SClipStopsG(c, S) ELSE SClipStopsPT(c, S)
+
 \* statistics of a reported subset F (# {}): the error of the weighted variant is
 \* not named by the statement - either documented convention is accepted
 SClipMean(c, F) == SMean(c.x, c.w, F)
@@ -232,6 +259,18 @@ SInterpMech(xs, vs, u) ==
         xm1 == IF xm0 >= n - 1 THEN n - 2 ELSE xm0
         xm  == IF xm1 < 0 THEN 0 ELSE xm1
     IN SLine(xs, vs, xm + 1, u)
+
+\* ---- SCALE COVARIANCE of interpolation (round 4) ------------------------------------------------
+\* Rescaling the abscissae (table nodes AND query points) by s > 0 does not change an interpolated value, rescaling
+\* the table values by t multiplies it by t: which segment a query point falls in, and where in it, is a matter of
+\* RATIOS of abscissa differences only.  An interpolation case carries the binary exponents sx, sv of the factors
+\* s = 2^sx, t = 2^sv (2^-40 .. 2^40: powers of two keep every lattice value exact) by which the harness rescales what
+\* it hands to the code and divides what comes back; no expectation reads them - SInterpScaleLaw (checked by TLC in
+\* StatsMC.tla on every table, integer factors) is why the unscaled table decides the rescaled case.
+SScaleSeq(a, s) == [i \in DOMAIN a |-> s * a[i]]
+SInterpScaleLaw(xs, vs, us, s, t) ==
+    \A q \in DOMAIN us :
+        SInterpVals(SScaleSeq(xs, s), SScaleSeq(vs, t), RMul(RInt(s), us[q])) = {RMul(RInt(t), v) : v \in SInterpVals(xs, vs, us[q])}
 
 \* ---- covariance <-> correlation -------------------------------------------------------
 \* m : symmetric integer matrix (sequence of rows) with positive diagonal
@@ -282,15 +321,15 @@ SClipFailing(c, o) ==
     ELSE LET St(k) == VRange(o.steps[k])
              F     == St(c.niter + 1)
          IN (IF St(1) = DOMAIN c.x THEN {} ELSE {"niter0_not_all"}) \cup
-            (IF \A k \in 1..c.niter : St(k + 1) = St(k) \/ SClipInSuccT(c, St(k), St(k + 1))
+            (IF \A k \in 1..c.niter : St(k + 1) = St(k) \/ SClipInSuccX(c, St(k), St(k + 1))
              THEN {} ELSE {"clip_step"}) \cup
             (IF \A k \in 1..c.niter : (St(k + 1) = St(k) /\ k < c.niter) => St(k + 2) = St(k)
              THEN {} ELSE {"resumed_after_stop"}) \cup
-            (IF \A k \in 1..c.niter : St(k + 1) = St(k) => SClipStopsPT(c, St(k))
+            (IF \A k \in 1..c.niter : St(k + 1) = St(k) => SClipStopsX(c, St(k))
              THEN {} ELSE {"stopped_early"}) \cup
             \* the reported subset is one the procedure may end on: enumerated for small inputs; for larger
             \* ones it follows from the four chain clauses above (F is the last link of the observed chain)
-            (IF Len(c.x) > SClipEnumMax \/ F \in SClipFinalsT(c) THEN {} ELSE {"subset"}) \cup
+            (IF SGrid(c) \/ Len(c.x) > SClipEnumMax \/ F \in SClipFinalsT(c) THEN {} ELSE {"subset"}) \cup
             (IF F = {} THEN {}
              ELSE (IF SObsEqI(o.mean, SClipMean(c, F)) THEN {} ELSE {"mean_of_subset"}) \cup
                   (IF SObsEqI(o.var, SClipVar(c, F)) THEN {} ELSE {"std_of_subset"}) \cup
